@@ -419,6 +419,8 @@ type Case struct {
 	Steps []Step `json:"steps"`
 	// Outage: the store fails this many consecutive calls from each fault index on (0/1 = a single call)
 	Outage int `json:"outage,omitempty"`
+	// LazyGone (plain store): a failing lazy load of contents / of a listing fails with an error matching ErrNotExist
+	LazyGone bool `json:"lazy_gone,omitempty"`
 }
 
 type outcome struct {
@@ -485,6 +487,7 @@ func check(c Case) (string, string, outcome) {
 		}
 		if e.plain != nil {
 			e.plain.FailLen = c.Outage
+			e.plain.LazyNotExist = c.LazyGone
 		} else {
 			e.reject.failN = c.Outage
 		}
@@ -539,7 +542,10 @@ func check(c Case) (string, string, outcome) {
 			}
 		}
 		e.disarm()
-		if allSame && firedAt >= 0 {
+		// RemoveAll told by the store that its own target "is gone" has nothing to do and nothing to report: "does not exist"
+		// is an answer there, not a failure (the one operation for which it is)
+		goneIsAnAnswer := c.LazyGone && firedAt >= 0 && c.Steps[firedAt].K == "removeall" && strings.HasSuffix(e.fired(), " "+c.Steps[firedAt].P)
+		if allSame && firedAt >= 0 && !goneIsAnAnswer {
 			// every operation reported exactly what it reports without the fault: then nothing may be missing from the store either
 			if got := e.storeContents(); !reflect.DeepEqual(got, dryContents) {
 				return base + " silent-loss:" + strings.Fields(e.fired())[0] + ":" + c.Steps[firedAt].K, fmt.Sprintf("store call %q failed during step %d %v; every operation of the history reported the same result as without the fault, but the store ends up with %v instead of %v", e.fired(), firedAt, c.Steps[firedAt], got, dryContents), out
@@ -625,6 +631,10 @@ func run(t *testing.T, kind string) {
 		if rapid.IntRange(0, 2).Draw(rt, "outage") == 0 {
 			c.Outage = rapid.IntRange(2, 6).Draw(rt, "outagelen")
 			rec.Class("outage")
+		}
+		if kind == "plain" && rapid.Bool().Draw(rt, "lazygone") {
+			c.LazyGone = true
+			rec.Class("lazy-load-fails-as-not-exist")
 		}
 		if k := knownSig(c); k != "" {
 			rec.Excluded(k)
